@@ -512,24 +512,70 @@ func C08(ctx *core.Ctx) {
 				"the emitted topic is "+strings.Join(norm, " ")+" but must be prefix «Title(Scope)» «Delim» op: this site disagrees with the other publishers/subscribers (different scope-name transform, literal separator instead of the delimiter option, or different order)")
 			// op and prefix definitions in the same generating function
 			for _, id := range []string{"op", "prefix"} {
-				var found *def
+				var founds []*def
 				for i := range defs[id] {
 					if defs[id][i].fn == e.fn {
-						found = &defs[id][i]
+						founds = append(founds, &defs[id][i])
 					}
 				}
-				if found == nil {
-					ctx.Violate("C08.R2", site+" › "+id+" is defined by the same generator function", pos, "emitted identifier "+id+" has no emitted definition in "+fname)
-					continue
+				if len(founds) > 1 {
+					founds = founds[len(founds)-1:]
 				}
-				rhs := strings.TrimSpace(found.rhs)
-				switch id {
-				case "op":
-					v := strings.Trim(rhs, `"'`)
-					ctx.Check(v == atom("Op"), "C08.R2", site+" › op is the operation name", cc.V.Pos(found.pos), "op = «Op»", "op is emitted as "+rhs+", not the operation's name")
-				case "prefix":
-					v := strings.Trim(rhs, `'`)
-					ctx.Check(v == atom("call generatePrefixStringTemplate"), "C08.R2", site+" › prefix comes from the prefix helper", cc.V.Pos(found.pos), "prefix = generatePrefixStringTemplate(scope)", "prefix is emitted as "+rhs+", not through the language's prefix helper")
+				if len(founds) == 0 {
+					// the topic line is emitted by a helper: the identifiers are defined by each function that calls it
+					var callers []*ast.FuncDecl
+					for _, f := range pkg.Syntax {
+						for _, d := range f.Decls {
+							fd, ok := d.(*ast.FuncDecl)
+							if !ok || fd == e.fn || fd.Body == nil {
+								continue
+							}
+							calls := false
+							ast.Inspect(fd.Body, func(n ast.Node) bool {
+								if ce, ok := n.(*ast.CallExpr); ok {
+									switch fx := ce.Fun.(type) {
+									case *ast.Ident:
+										calls = calls || fx.Name == e.fn.Name.Name
+									case *ast.SelectorExpr:
+										calls = calls || fx.Sel.Name == e.fn.Name.Name
+									}
+								}
+								return true
+							})
+							if calls {
+								callers = append(callers, fd)
+							}
+						}
+					}
+					complete := len(callers) > 0
+					for _, cf := range callers {
+						var fd *def
+						for i := range defs[id] {
+							if defs[id][i].fn == cf {
+								fd = &defs[id][i]
+							}
+						}
+						if fd == nil {
+							complete = false
+						} else {
+							founds = append(founds, fd)
+						}
+					}
+					if !complete {
+						ctx.Violate("C08.R2", site+" › "+id+" is defined by the same generator function", pos, "emitted identifier "+id+" has no emitted definition in "+fname+" (nor in every function that calls it)")
+						continue
+					}
+				}
+				for _, found := range founds {
+					rhs := strings.TrimSpace(found.rhs)
+					switch id {
+					case "op":
+						v := strings.Trim(rhs, `"'`)
+						ctx.Check(v == atom("Op"), "C08.R2", site+" › op is the operation name", cc.V.Pos(found.pos), "op = «Op»", "op is emitted as "+rhs+", not the operation's name")
+					case "prefix":
+						v := strings.Trim(rhs, `'`)
+						ctx.Check(v == atom("call generatePrefixStringTemplate"), "C08.R2", site+" › prefix comes from the prefix helper", cc.V.Pos(found.pos), "prefix = generatePrefixStringTemplate(scope)", "prefix is emitted as "+rhs+", not through the language's prefix helper")
+					}
 				}
 			}
 		}
